@@ -694,3 +694,108 @@ def probe_c17(ctx, pf):
             if abs(A - B).max() > 1e-9 * (1 + abs(B).max()):
                 ctx.violation(f"c17:{cname}:linear:{what}", f"{cname}: {what} is not linear in its coefficient field", dict(L, what=what))
     return n
+
+
+# ------------------------------------------------------------------ C16
+def outcome(f):
+    try:
+        f(); return "ok"
+    except Exception as ex:
+        return type(ex).__name__
+
+
+def probe_c16(ctx, pf):
+    import itertools
+    n = 0
+    rng = random.Random(f"c16-{ctx.seed}")
+    for cname in gen.CLASSES:
+        d = gen.DIM[cname]
+        for N in (1, 2, 3):
+            fs = [np.linspace(0.5, 1.5, N + 1) for _ in range(d)]
+            mesh = gen.build_mesh(pf, cname, fs)
+            L = lab(cname, fs)
+            # component labels of FaceVariable: get and set
+            fv = pf.FaceVariable(mesh, 1.0)
+            for l in ALL_LABELS:
+                want = "ok" if l in COORD_SYSTEM[cname] else "AttributeError"
+                got_g = outcome(lambda: getattr(fv, l + "value"))
+                got_s = outcome(lambda: setattr(fv, l + "value", getattr(fv, "_xvalue")))
+                n += 2
+                if got_g != want or got_s != want:
+                    ctx.violation(f"c16:{cname}:facelabel:{l}", f"{cname}: FaceVariable.{l}value get->{got_g} set->{got_s}, documented: {want}", dict(L, label=l))
+                if want == "ok":
+                    slot = COORD_SYSTEM[cname].index(l)
+                    if getattr(fv, l + "value") is not [fv._xvalue, fv._yvalue, fv._zvalue][slot]:
+                        ctx.violation(f"c16:{cname}:facelabel:{l}:slot", f"{cname}: FaceVariable.{l}value names the wrong component", dict(L, label=l))
+            # periodic flags: every pattern over the 2d sides
+            sides = [s for ax in range(d) for s in SIDES[ax]]
+            pats = list(itertools.product([False, True], repeat=len(sides)))
+            if len(pats) > 16 and ctx.tier == "quick":
+                pats = pats[::3] + [pats[-1]]
+            for pat in pats:
+                BC = pf.BoundaryConditions(mesh)
+                for s, flag in zip(sides, pat):
+                    if flag:
+                        getattr(BC, s).periodic = True
+                radial = gen.AXKIND[cname][0] == "rad" and (pat[0] or pat[1])
+                want = "ValueError" if radial else "ok"
+                got = outcome(lambda: pf.boundaryConditionsTerm(BC))
+                got2 = outcome(lambda: pf.CellVariable(mesh, 1.0, BC))
+                n += 2
+                if got != want or got2 != want:
+                    ctx.violation(f"c16:{cname}:periodic", f"{cname}: periodic flags {dict(zip(sides, pat))}: boundaryConditionsTerm->{got}, CellVariable->{got2}, documented: {want}",
+                                  dict(L, flags=dict(zip(sides, [bool(x) for x in pat]))))
+            # initial-value shapes
+            dims = tuple(int(k) for k in mesh.dims)
+            good = [np.ones(dims), np.ones(tuple(k + 2 for k in dims)), 2.0, np.array([2.0])]
+            bad = [np.ones(tuple(k + 1 for k in dims)), np.ones(tuple(k + 3 for k in dims)), np.ones(dims + (2,)), np.ones((int(np.prod(dims)) + 5,))]
+            for v in good:
+                got = outcome(lambda: pf.CellVariable(mesh, v))
+                n += 1
+                if got != "ok":
+                    ctx.violation(f"c16:{cname}:shape-valid", f"{cname}: CellVariable rejects a documented initial value of shape {np.shape(v)}: {got}", dict(L, shape=list(np.shape(v))))
+            for v in bad:
+                if v.size == 1 or v.shape == dims or v.shape == tuple(k + 2 for k in dims):
+                    continue
+                got = outcome(lambda: pf.CellVariable(mesh, v))
+                n += 1
+                if got != "ValueError":
+                    ctx.violation(f"c16:{cname}:shape-invalid", f"{cname}: CellVariable with an array of shape {v.shape} on a {dims} grid gives {got}, documented: ValueError",
+                                  dict(L, shape=list(v.shape)))
+            # boundary coefficients must be arrays
+            for args in ((1.0, 0.0, 0.0), ([1.0], [0.0], [0.0]), (np.ones(1), 0.0, np.zeros(1))):
+                got = outcome(lambda: pf.boundary.BoundaryFace(*args))
+                n += 1
+                if got != "TypeError":
+                    ctx.violation("c16:bcface-type", f"BoundaryFace with non-array coefficients {args!r} gives {got}, documented: TypeError", {"args": repr(args)})
+            # equation terms
+            phi = pf.CellVariable(mesh, 1.0)
+            ncell = int(np.prod([k + 2 for k in dims]))
+            from scipy.sparse import identity
+            okterms = [identity(ncell, format="csr"), np.zeros(ncell), (identity(ncell, format="csr"), np.zeros(ncell)), pf.transientTerm(phi, 1.0)]
+            for t in okterms:
+                got = outcome(lambda: pf.solvePDE(pf.CellVariable(mesh, 1.0), [identity(ncell, format="csr"), t]))
+                n += 1
+                if got != "ok":
+                    ctx.violation(f"c16:{cname}:term-valid", f"{cname}: solvePDE rejects a documented term kind ({type(t).__name__}): {got}", L)
+            for t in (None, 3.0, "abc", (np.zeros(ncell), np.zeros(ncell)), (identity(ncell), np.zeros(ncell), np.zeros(ncell)), np.zeros((2, 2, 2)), (1.0, 2.0), object()):
+                got = outcome(lambda: pf.solvePDE(pf.CellVariable(mesh, 1.0), [identity(ncell, format="csr"), t]))
+                n += 1
+                if got != "TypeError":
+                    ctx.violation(f"c16:term-invalid:{type(t).__name__}", f"solvePDE with a non-conforming term {type(t).__name__} gives {got}, documented: TypeError", dict(L, term=repr(t)[:80]))
+        # constructor arity 0..7: the documented forms (d face arrays; N.. + L..) are accepted, every other arity raises TypeError
+        for k in range(0, 8):
+            args = [np.array([0.5, 1.0, 1.5])] * k
+            want = "ok" if k == d else "TypeError"
+            got = outcome(lambda: getattr(pf, cname)(*args))
+            if k in (6, 2 * d) and k != d:
+                continue   # six positional arguments are the internal (dims, cellsize, ...) form; 2d arguments are the (N.., L..) form
+            n += 1
+            if (want == "ok") != (got == "ok") or (want != "ok" and got != "TypeError"):
+                ctx.violation(f"c16:{cname}:arity:{k}", f"{cname} constructor with {k} arguments gives {got}, documented: {want}", {"cls": cname, "nargs": k})
+        nl = [2] * d + [1.0] * d
+        got = outcome(lambda: getattr(pf, cname)(*nl))
+        n += 1
+        if got != "ok":
+            ctx.violation(f"c16:{cname}:NL-form", f"{cname}{tuple(nl)} raises {got}", {"cls": cname})
+    return n
